@@ -172,6 +172,43 @@ pub fn gen_f32_corner(r: &mut Rng) -> Inst {
     Inst { courses, parts, rooms: Some(vec![room, second]) }
 }
 
+/// A fixed course that nobody wants first (but many second), with a room offset, and a room list
+/// with a conflict at a room smaller than the fixed course's minimum size: the room stage must
+/// shrink the popular courses (pushing people into the fixed course), never cancel the fixed one.
+pub fn gen_fixed_room_squeeze(r: &mut Rng) -> Inst {
+    let k = 2 + r.usize(2); // popular courses
+    let fmin = 2 + r.usize(2);
+    let foff = 1 + r.usize(2);
+    let mut courses: Vec<CourseDump> = (0..k)
+        .map(|i| CourseDump { index: i, dbid: 100 + i, name: format!("c{}", i), num_min: 1, num_max: 10, instructors: vec![],
+            room_factor: 1.0, room_offset: 0.0, fixed_course: false, hidden_participant_names: vec![] })
+        .collect();
+    courses.push(CourseDump { index: k, dbid: 100 + k, name: "F".into(), num_min: fmin, num_max: fmin + 3, instructors: vec![],
+        room_factor: 1.0, room_offset: foff as f32, fixed_course: true, hidden_participant_names: vec![] });
+    let mut parts: Vec<ParticipantDump> = vec![];
+    let mut sizes = vec![];
+    for c in 0..k {
+        let n = 4 + r.usize(2) - if c > 0 { r.usize(2) } else { 0 };
+        sizes.push(n);
+        for _ in 0..n {
+            let i = parts.len();
+            let third = (c + 1) % k;
+            parts.push(ParticipantDump { index: i, dbid: 1000 + i, name: format!("p{}", i), choices: vec![(c, 0), (k, 1), (third, 2)] });
+        }
+    }
+    sizes.sort_unstable_by(|a, b| b.cmp(a));
+    // rooms: generous for the largest, then one room just below the size of a popular course and
+    // below the fixed course's minimum size (fmin + foff), and a room for the empty fixed course
+    let squeeze = (sizes[k - 1] - 1).min(fmin + foff - 1).max(foff);
+    let mut rooms = vec![9usize + r.usize(3)];
+    for _ in 1..k - 1 {
+        rooms.push(6 + r.usize(2));
+    }
+    rooms.push(squeeze);
+    rooms.push(foff.max(2));
+    Inst { courses, parts, rooms: Some(rooms) }
+}
+
 /// Third f32 corner: the shrink size computed by the inverse formula does not fit the room by the
 /// forward formula (`floor((25 - 0.7) / 2.7) = 9` but `ceil(0.7 + 2.7 * 9) = 26 > 25`), so the same
 /// shrink constraint is proposed again for an already shrunk course.
@@ -498,6 +535,8 @@ pub fn gen_tree(r: &mut Rng, max_nodes: usize, with_panic: bool) -> Tree {
         };
         nodes[i].1 = kind;
     }
+    // the score of an inner node is the best feasible score below it plus an independent slack:
+    // the tree is Bounded, but a child's (loose) score may exceed its parent's
     fn fix(nodes: &mut Vec<(u32, Kind)>, i: usize, r: &mut Rng) -> u32 {
         match nodes[i].1.clone() {
             Kind::Feasible(s) => s,
@@ -506,9 +545,9 @@ pub fn gen_tree(r: &mut Rng, max_nodes: usize, with_panic: bool) -> Tree {
                 for k in kids.iter() {
                     m = m.max(fix(nodes, *k as usize, r));
                 }
-                let s = m + if r.chance(1, 2) { 0 } else { r.below(3) as u32 };
+                let s = m + if r.chance(1, 2) { 0 } else { r.below(4) as u32 };
                 nodes[i].1 = Kind::Infeasible(kids, s);
-                s
+                m
             }
             _ => 0,
         }
